@@ -21,7 +21,7 @@ ASSUMPTIONS = [
     "routes are symmetric and all agents share one default route (what the format can express)",
     "one file / one string (multi-file loading is string concatenation and is outside)",
 ]
-BOUNDS = {"quick": "a hand-written agents section (global / per-agent default and specific hosting costs in both key orders, default and specific routes) loaded and compared with what the text states; constraints: structures pair, chain-3, unary, ternary (domain 2, one job with domain 3), int and str domains, single-value domain, optional intentional constraint, initial value absent/first/last, with 2 plain agents; agents: 2 agents with every combination of capacity / symmetric route / default route / default and specific hosting cost",
+BOUNDS = {"quick": "a hand-written agents section (global / per-agent default and specific hosting costs in both key orders, default and specific routes) loaded from a string, from one file (name as str or in a list) and from two files, and compared with what the text states; constraints: structures pair, chain-3, unary, ternary (domain 2, one job with domain 3), int and str domains, single-value domain, optional intentional constraint, initial value absent/first/last, with 2 plain agents; agents: 2 agents with every combination of capacity / symmetric route / default route / default and specific hosting cost",
           "thorough": "quick + triangle, 3 agents, pair with domain 3 and str values"}
 OUTSIDE = "the YAML text layer for all inputs, several files, cost-function variables, external 'source:' constraints, distribution hints"
 CAP_S = {"quick": 900, "thorough": 5400}
@@ -122,11 +122,31 @@ def run_handwritten(eng, p):
             other = "a2" if route_owner == "a1" else "a1"
             lines.append("  %s: {%s: %d}" % (route_owner, other, specific_route))
     text = "\n".join(lines) + "\n"
-    eng.notes["outcome"] = {"yaml": text}
+    # the same text given as a string, as one file (path as str / in a list) or split over two files (agents part apart)
+    how = eng.pick(["string", "file_str", "file_list", "two_files"], "loaded_from")
+    eng.notes["outcome"] = {"yaml": text, "loaded_from": how}
+    import tempfile, os, shutil
+    tmp = tempfile.mkdtemp(prefix="verif_c14_")
     try:
-        dcop = yd.load_dcop(text)
+        if how == "string":
+            dcop = yd.load_dcop(text)
+        else:
+            cut = lines.index("agents: [a1, a2, a3]")
+            f1, f2 = os.path.join(tmp, "dcop.yaml"), os.path.join(tmp, "agents.yaml")
+            if how == "two_files":
+                open(f1, "w").write("\n".join(lines[:cut]) + "\n")
+                open(f2, "w").write("\n".join(lines[cut:]) + "\n")
+                dcop = yd.load_dcop_from_file([f1, f2])
+            else:
+                open(f1, "w").write(text)
+                dcop = yd.load_dcop_from_file(f1 if how == "file_str" else [f1])
     except Exception as e:
-        eng.fail("loading the hand-written yaml raised %s: %s" % (type(e).__name__, e), detail=text + traceback.format_exc(limit=-3))
+        eng.fail("loading the hand-written yaml (%s) raised %s: %s" % (how, type(e).__name__, e), detail=text + traceback.format_exc(limit=-3))
+        return
+    finally:
+        shutil.rmtree(tmp, ignore_errors=True)
+    if dcop is None:
+        eng.fail("loading the hand-written yaml (%s) returned nothing" % how, detail=text)
         return
     bad = []
     for a in ("a1", "a2", "a3"):
